@@ -352,7 +352,7 @@ OPS = {
     "x": ["xcopy", "xassign", "xclear", "xsets", "xelem"],
     "p": ["pnew", "pcopy", "passign", "pclear", "pswap", "praw", "pctor", "plink", "pnext", "pnextof"],
 }
-ST_ONLY = {"sprintf", "sresize", "plink", "pnext", "pnextof"}   # not in thread programs (see docs/rc.md)
+ST_ONLY = {"sprintf", "sresize", "plink"}   # not in thread programs (see docs/rc.md)
 W = {
     "s": [3, 1, 4, 4, 2, 5, 2, 2, 2, 2, 2, 2, 2, 2, 1], "v": [4, 4, 2, 2, 3, 4, 3, 2, 2, 3, 1, 3, 1], "x": [4, 4, 2, 3, 4],
     "p": [3, 4, 4, 2, 3, 2, 2, 4, 3, 2],
@@ -377,12 +377,12 @@ def cur_len(r, kind, d):
     return len(v[1]) if len(v) > 1 and isinstance(v[1], tuple) else 0
 
 
-def gen_op(rng, r, kind, handles, mt=False):
+def gen_op(rng, r, kind, handles, mt=False, setup=False):
     """one op of `kind` over the given handle indices, keeping payload strings short and the call well-typed
     (a rejected candidate is not emitted: Ref.apply returns False for it)"""
     for _ in range(40):
         op = rng.choices(OPS[kind], W[kind])[0]
-        if mt and op in ST_ONLY:
+        if mt and op in ST_ONLY and not (setup and op == 'plink'):
             continue
         d = rng.choice(handles)
         grow = 0
@@ -482,7 +482,7 @@ def gen_mt_scenario(rng, hooks, nt=None, nkinds=None):
             elif c < 0.8 and r.apply(f"{asg} {i} {done[-1]}".split()):
                 line = f"{asg} {i} {done[-1]}"
             else:
-                line = gen_op(rng, r, kind, [i], mt=True)
+                line = gen_op(rng, r, kind, done + [i], mt=True, setup=True)
             done.append(i)
             h.append(line)
         hl = [0, 1, 2, 3]
